@@ -1,12 +1,15 @@
 # C06 - cluster metadata is deterministic and keeps its invariants.
 # spec: specs/metadata (MetaData, MetaDataGen); harness: harness/meta
-import os, json, collections
+import os, json, collections, time
 from vcheck import Infra, log
 
 PKG = "services/meta"
 FILES = ["meta/zz_verif_metadata_test.go"]
 TEST = "TestVerifMetaReplay"
 NONE = 777777
+# storeFSM.Apply writing term/index of a *rejected* command into the Data object published before it is reported
+# as a mismatch (patches/C06/05 repairs it); False turns it into a counter in the evidence only.
+STRICT_PUBLISHED = True
 
 
 def q(*xs):
@@ -37,7 +40,7 @@ def base_consts():
         "Names": q("", "a", "b", "p", "q"), "DbN": q("", "a", "b"), "RpN": q("", "p", "q"), "ObjN": q("", "a", "b"),
         "LongNames": q("L256"), "UpdNames": q("<none>", "", "p", "q", "L256"),
         "UpdDurs": [NONE, 0, 1, 2, 4, 96], "UpdRFs": [NONE, 0, 1, 2, 3, 4], "UpdSGDs": [NONE, 0, 1, 2, 3, 4, 5],
-        "Ixs": [0], "InitKind": '"empty"', "Addrs": q("h1", "h2", "h3"), "Times": list(range(0, 10)),
+        "Ixs": [0], "InitKind": '"empty"', "SameAddr": False, "Addrs": q("h1", "h2", "h3"), "Times": list(range(0, 10)),
         "RFs": [0, 1, 2, 3, 4], "Durs": [0, 1, 2, 4, 96], "SGDs": [0, 1, 2, 3, 4, 5],
         "Hashes": q("x", "y"), "Queries": q("q1", "Q1", "q2"), "Privs": [0, 1, 2, 3], "DestSets": q("d1", "d2", "bad"),
         "Modes": q("ALL", "ANY"), "Rands": [7, 9], "MinDur": 2, "AutoCreate": True, "Cmds": q(*ALL_CMDS),
@@ -84,8 +87,8 @@ def gen_inputs(ctx, sd):
     ctx.write_cfg(sd, "GenGroups.cfg", "GSpec", c, extra="INVARIANT Emit")
     behs += [("groups", True, b) for b in ctx.tlc_generate(sd, "MetaDataGen", "GenGroups.cfg", num=n, depth=glen + 1, seed=ctx.seed + 2000, timeout=900)[:n]]
     # (c) accounts: users, privileges, continuous queries, subscriptions
-    c = dict(base_consts(), GenLen=glen, Sim=True, Gaps=[1], Prefixes=q("acct", "empty"), DbN=q("", "a", "b"), RpN=q("p", "q"),
-             Cmds=q(*ACCT_CMDS))
+    c = dict(base_consts(), GenLen=glen, Sim=True, Gaps=[1], Prefixes=q("acct", "empty"), DbN=q("", "a", "b"), RpN=q("p"),
+             ObjN=q("", "a"), Cmds=q(*ACCT_CMDS))
     ctx.write_cfg(sd, "GenAcct.cfg", "GSpec", c, extra="INVARIANT Emit")
     m = max(30, n // 3)
     behs += [("acct", True, b) for b in ctx.tlc_generate(sd, "MetaDataGen", "GenAcct.cfg", num=m, depth=glen + 1, seed=ctx.seed + 3000, timeout=900)[:m]]
@@ -110,11 +113,11 @@ def replay(ctx, behs, reps, label):
         sel = [b for (_, a, b) in behs if a == auto]
         if not sel:
             continue
-        inp = {"consts": {"MinDur": 2, "AutoCreate": auto}, "reps": reps, "behaviours": sel}
+        inp = {"consts": {"MinDur": 2, "AutoCreate": auto}, "reps": reps, "strictPublished": STRICT_PUBLISHED, "behaviours": sel}
         p = ctx.write_json("logs-%s-%s.json" % (label, auto), inp)
 
         def confirm(rp):
-            one = {"consts": rp["consts"], "reps": 200, "behaviours": [rp["behaviour"]]}
+            one = {"consts": rp["consts"], "reps": 200, "strictPublished": STRICT_PUBLISHED, "behaviours": [rp["behaviour"]]}
             recs, out, rc = ctx.go_test(PKG, FILES, "^%s$" % TEST, env={"VERIF_IN": ctx.write_json("confirm.json", one)},
                                         timeout=600, label="confirm")
             return any(r.get("k") == "mismatch" for r in recs)
@@ -136,12 +139,18 @@ def run(ctx):
         return ctx.finish("model_checking", {"replayed_behaviours": totals["behaviours"]})
 
     # 1. exhaustive model checking, one configuration per family
+    t0 = time.time()
     mc(ctx, sd)
+    log("C06: model checking %.0fs" % (time.time() - t0))
 
     # 2. command logs -> real storeFSM replicas
+    t0 = time.time()
     behs = gen_inputs(ctx, sd)
+    log("C06: %d command logs generated in %.0fs" % (len(behs), time.time() - t0))
+    t0 = time.time()
     reps = ctx.pick(3, 5)
     totals, cover = replay(ctx, behs, reps, "replay")
+    log("C06: replay %.0fs: %s" % (time.time() - t0, dict(totals)))
     ctx.cov["traces_validated_against_impl"] += totals["behaviours"]
     # vacuity: every command type must have been accepted at least once and every error class of the model seen
     missing = [t for t in ALL_CMDS if not cover.get(t + ":ok")]
